@@ -48,7 +48,7 @@ def BOUNDS(tier):
 
 def REQUIRED_COVER(tier):
     return {'generic:accept', 'generic:boc', 'generic:nested', 'header:accept', 'account:accept', 'account:extra-currency', 'account:pruned-account', 'mut:expected-hash', 'mut:data-bit',
-            'mut:drop-ref', 'mut:dup-ref', 'mut:swap-ref', 'mut:pruned-hash', 'mut:pruned-depth', 'mut:root-type', 'mut:root-hash', 'mut:claimed-pruned', 'mut:claimed-other',
+            'mut:drop-ref', 'mut:dup-ref', 'mut:swap-ref', 'mut:pruned-hash', 'mut:pruned-depth', 'mut:pruned-level', 'mut:root-type', 'mut:root-hash', 'mut:claimed-pruned', 'mut:claimed-other',
             'mut:claimed-flip', 'mut:address', 'mut:block-id', 'mut:roots', 'mut:state-bit', 'mut:block-bit'}
 
 
@@ -107,6 +107,17 @@ def proof_mutants(proof):
                     pos = 16 + 256 * k + b
                     yield attempt('mut:pruned-hash', f'pruned branch at {path}: stored hash {k} bit {b} flipped', lambda x, pos=pos: RC.RCell(flip(x.bits, pos), x.refs, True))
                 pos = 16 + 256 * n + 16 * k + 15
+                if k == 0 and c.mask == 1 and len(path) >= 1:
+                    # the same branch claimed one level higher: it keeps its committed entries and gains one for a level that no Merkle
+                    # cell above it accounts for (every level-0 hash stays what it was: only the LEVEL of the proof gives it away)
+                    def lift(x, c=c):
+                        raw = bytes(int(x.bits[i:i + 8], 2) for i in range(0, len(x.bits), 8))
+                        nn = bin(c.mask).count('1')
+                        hs = [raw[2 + 32 * j:34 + 32 * j] for j in range(nn)] + [bytes(range(32))]
+                        ds = [int.from_bytes(raw[2 + 32 * nn + 2 * j:4 + 32 * nn + 2 * j], 'big') for j in range(nn)] + [7]
+                        return RC.pruned_raw(3, hs, ds)
+                    if True:
+                        yield attempt('mut:pruned-level', f'pruned branch at {path}: claimed with level mask 0b11 and an extra (uncommitted) level-1 hash', lift)
                 yield attempt('mut:pruned-depth', f'pruned branch at {path}: stored depth {k} changed', lambda x, pos=pos: RC.RCell(flip(x.bits, pos), x.refs, True))
             continue
         if c.special:
